@@ -118,7 +118,6 @@ impl PathBuf {
     #[verifier::external_body]
     pub fn is_absolute(&self) -> (b: bool) ensures b == comps_absolute(self.comps()) { unimplemented!() }
     // PathExt::name (file name without extension; unspecified here)
-    #[verifier::external_body] pub fn name(&self) -> (r: RvResult<NameStr>) { unimplemented!() }
     // PathExt::mash with a single name (proved in unit path_helpers)
     #[verifier::external_body]
     pub fn mash_n(&self, n: NameStr) -> (r: PathBuf) ensures self.abs_clean() ==> r.abs_clean() && r@ == self@.push(n@) && r.comps() == abs_comps(r@) { unimplemented!() }
@@ -424,7 +423,7 @@ impl Stdfs {
 //@ sig fn _copy(cp: sys::CopyOpts) -> RvResult<()>
 //@ rw R1 * re⟦\b(cp\.src|cp\.dst|src_root|dst_root) == (cp\.src|cp\.dst|src_root|dst_root)\b⟧ => ⟦\1.eq_abs(&\2)⟧
 //@ rw R1 + re⟦dst_root\.mash\(⟧ => ⟦dst_root.mash_rel(⟧
-//@ rw R8 * ⟦Stdfs::symlink(dst_path, src.alt())?;⟧ => ⟦Stdfs::symlink_req(dst_path, src.alt())?;⟧
+//@ rw R8 * re⟦Stdfs::symlink\(dst_path, (\w+)\.alt\(\)\)\?;⟧ => ⟦Stdfs::symlink_req(dst_path, \1.alt())?;⟧
 //@ rw R8 + re⟦Stdfs::mkdir_m\(⟧ => ⟦Stdfs::mkdir_m_req(⟧
 //@ rw R8 * ⟦StdfsEntry::from(src.path().dir()?)?.mode()⟧ => ⟦Stdfs::entry_mode(src.path().dir()?)?⟧
 //@ rw R8 * ⟦fs::copy(src.path(), &dst_path)?;⟧ => ⟦os_copy(src.path(), &dst_path)?;⟧
